@@ -118,55 +118,56 @@ type callRecord struct {
 }
 
 type Gen struct {
-	sitePCs     map[string][]string          // call label -> path conditions under which the call is executed (covers clauses)
-	siteBlocks  map[string][]*ssa.BasicBlock // call label -> blocks of those calls
-	deferred    []func()                     // obligations that need the whole function processed first (covers clauses)
-	eng         *Engine
-	fn          *ssa.Function
-	con         *Contract
-	fname       string
-	decls       []string
-	declSet     map[string]bool
-	asserts     []string
-	regions     map[string]*Region
-	vals        map[ssa.Value]string
-	locs        map[ssa.Value]*Loc
-	tuples      map[ssa.Value][]string
-	in          map[*ssa.BasicBlock]*BState
-	out         map[*ssa.BasicBlock]*BState
-	obls        []*Obligation
-	strLits     map[string]string
-	nfresh      int
-	entryHeap   Heap
-	props       []string
-	loops       map[*ssa.BasicBlock]*loopInfo
-	backEdge    map[[2]int]bool
-	anchors     map[string]int
-	fatal       []string
-	imprecise   []string
-	debugNames  map[*ssa.BasicBlock]map[string]ssa.Value
-	debugAddrs  map[*ssa.BasicBlock]map[string]*ssa.Alloc
-	calls       []*callRecord
-	callCount   map[string]int
-	allocs      map[ssa.Value]bool
-	npc         int
-	selectProps map[string]bool
-	rangeOf     map[ssa.Value]*ssa.Range
-	curInstrPos token.Pos
-	modTargets  map[string][]string // region -> declared target ref terms; "*" wholesale
-	hasModifies bool
-	retCount    int
-	usedTrusted map[string]bool
-	singleDefs  map[types.Object]ssa.Value
-	callGuard   string // guard of the alternative of a dynamic call being processed
-	entryAlloc  string
-	axioms      []*axiomText
-	usedGInv    bool
-	defers      []*ssa.Defer
-	nq          int
-	nqid        int
-	touched     map[string]bool
-	callOrd     map[string]map[ssa.Instruction]int
+	sitePCs      map[string][]string          // call label -> path conditions under which the call is executed (covers clauses)
+	siteBlocks   map[string][]*ssa.BasicBlock // call label -> blocks of those calls
+	deferred     []func()                     // obligations that need the whole function processed first (covers clauses)
+	siteCanaries map[string]bool              // call labels that already have a reachability canary
+	eng          *Engine
+	fn           *ssa.Function
+	con          *Contract
+	fname        string
+	decls        []string
+	declSet      map[string]bool
+	asserts      []string
+	regions      map[string]*Region
+	vals         map[ssa.Value]string
+	locs         map[ssa.Value]*Loc
+	tuples       map[ssa.Value][]string
+	in           map[*ssa.BasicBlock]*BState
+	out          map[*ssa.BasicBlock]*BState
+	obls         []*Obligation
+	strLits      map[string]string
+	nfresh       int
+	entryHeap    Heap
+	props        []string
+	loops        map[*ssa.BasicBlock]*loopInfo
+	backEdge     map[[2]int]bool
+	anchors      map[string]int
+	fatal        []string
+	imprecise    []string
+	debugNames   map[*ssa.BasicBlock]map[string]ssa.Value
+	debugAddrs   map[*ssa.BasicBlock]map[string]*ssa.Alloc
+	calls        []*callRecord
+	callCount    map[string]int
+	allocs       map[ssa.Value]bool
+	npc          int
+	selectProps  map[string]bool
+	rangeOf      map[ssa.Value]*ssa.Range
+	curInstrPos  token.Pos
+	modTargets   map[string][]string // region -> declared target ref terms; "*" wholesale
+	hasModifies  bool
+	retCount     int
+	usedTrusted  map[string]bool
+	singleDefs   map[types.Object]ssa.Value
+	callGuard    string // guard of the alternative of a dynamic call being processed
+	entryAlloc   string
+	axioms       []*axiomText
+	usedGInv     bool
+	defers       []*ssa.Defer
+	nq           int
+	nqid         int
+	touched      map[string]bool
+	callOrd      map[string]map[ssa.Instruction]int
 }
 
 func (g *Gen) fatalf(f string, a ...interface{}) {
